@@ -97,4 +97,246 @@ theorem intrinsics_same_projection (v2 : Bool) (c : Cam K) (h2 : (2 : K) ≠ 0) 
 
 end intr
 
+/-! ## identifiers -/
+
+/-- view ids and camera ids are 0, 1, 2, ... in order of first appearance, without repeated keys -/
+theorem ids_dense (recs : List Rec) : Dense (viewIds recs) ∧ Dense (camIds recs) := by
+  rw [viewIds_eq, camIds_eq]; exact ⟨dense_idTable _, dense_idTable _⟩
+
+/-- every image and every camera of records_camera gets an id -/
+theorem ids_complete (recs : List Rec) (r : Rec) (h : r ∈ recs) :
+    (∃ i, Dict.get? r.name (viewIds recs) = some i ∧ i < (viewIds recs).length) ∧
+    (∃ c, Dict.get? r.cam (camIds recs) = some c ∧ c < (camIds recs).length) := by
+  rw [viewIds_eq, camIds_eq]
+  refine ⟨?_, ?_⟩
+  · obtain ⟨i, hi⟩ := has_foldl_of_mem (recs.map (·.name)) [] r.name (List.mem_map.mpr ⟨r, h, rfl⟩)
+    exact ⟨i, hi, dense_lt _ (dense_idTable _) _ _ hi⟩
+  · obtain ⟨i, hi⟩ := has_foldl_of_mem (recs.map (·.cam)) [] r.cam (List.mem_map.mpr ⟨r, h, rfl⟩)
+    exact ⟨i, hi, dense_lt _ (dense_idTable _) _ _ hi⟩
+
+/-- the id assignment is injective: two image names (two cameras) never share an id -/
+theorem ids_injective (recs : List Rec) (a b : Str) (i : Nat) :
+    (Dict.get? a (viewIds recs) = some i → Dict.get? b (viewIds recs) = some i → a = b) ∧
+    (Dict.get? a (camIds recs) = some i → Dict.get? b (camIds recs) = some i → a = b) :=
+  ⟨dense_injective _ (ids_dense recs).1 a b i, dense_injective _ (ids_dense recs).2 a b i⟩
+
+/-! ## image names -/
+
+/-- an image name is the common image directory followed by a non-empty relative name -/
+theorem name_decomposition (recs : List Rec) (r : Rec) (h : r ∈ recs) :
+    joinSlash (subRoot recs ++ relOf (subRoot recs) r.name) = r.name ∧ relOf (subRoot recs) r.name ≠ [] := by
+  obtain ⟨h1, h2⟩ := relOf_decompose _ _ (subRoot_prefix recs r h)
+  rw [h1, joinSlash_splitSlash]
+  exact ⟨rfl, h2⟩
+
+/-- the name import gives to the view of an image: the directory name of root_path, then the relative name (flattened
+  or not).  Together with `name_decomposition`: the same image names up to the common image-root prefix. -/
+theorem imported_name (flatten : Bool) (recs : List Rec) (cams views : List (Str × Nat)) (r : Rec) (v : View) (dir : Str)
+    (h : r ∈ recs) (hne : ∀ c ∈ splitSlash r.name, c ≠ [])
+    (hv : exportView flatten (subRoot recs) cams views r = some v) :
+    importName dir v = dir ++ '/' :: (if flatten then flattenStr (joinSlash (relOf (subRoot recs) r.name))
+                                      else joinSlash (relOf (subRoot recs) r.name)) := by
+  obtain ⟨c, i, _, _, rfl⟩ := exportView_eq _ _ _ _ _ _ hv
+  obtain ⟨hp, hc⟩ := mvgPath_good flatten _ (name_decomposition recs r h).2 (rel_comps_ne _ _ hne)
+  simp only [importName]
+  rw [join_dropLast_getLast _ hp hc, joinSlash_mvgPath]
+
+/-- without flattening distinct images keep distinct names -/
+theorem imported_names_distinct (recs : List Rec) (cams views : List (Str × Nat)) (r1 r2 : Rec) (v1 v2 : View) (dir : Str)
+    (h1 : r1 ∈ recs) (h2 : r2 ∈ recs) (hne1 : ∀ c ∈ splitSlash r1.name, c ≠ []) (hne2 : ∀ c ∈ splitSlash r2.name, c ≠ [])
+    (hv1 : exportView false (subRoot recs) cams views r1 = some v1)
+    (hv2 : exportView false (subRoot recs) cams views r2 = some v2)
+    (e : importName dir v1 = importName dir v2) : r1.name = r2.name := by
+  rw [imported_name false recs cams views r1 v1 dir h1 hne1 hv1,
+    imported_name false recs cams views r2 v2 dir h2 hne2 hv2] at e
+  have e' : joinSlash (relOf (subRoot recs) r1.name) = joinSlash (relOf (subRoot recs) r2.name) := by
+    simpa using e
+  obtain ⟨d1, n1⟩ := name_decomposition recs r1 h1
+  obtain ⟨d2, n2⟩ := name_decomposition recs r2 h2
+  by_cases hs : subRoot recs = []
+  · rw [hs] at d1 d2 e'
+    simp only [List.nil_append] at d1 d2
+    rw [← d1, ← d2, e']
+  · rw [joinSlash_append _ _ hs n1] at d1
+    rw [joinSlash_append _ _ hs n2] at d2
+    rw [← d1, ← d2, e']
+
+/-- with flattening two images get the same name exactly when their relative names differ only by '/' versus '_' -/
+theorem imported_names_collide_iff (recs : List Rec) (cams views : List (Str × Nat)) (r1 r2 : Rec) (v1 v2 : View) (dir : Str)
+    (h1 : r1 ∈ recs) (h2 : r2 ∈ recs) (hne1 : ∀ c ∈ splitSlash r1.name, c ≠ []) (hne2 : ∀ c ∈ splitSlash r2.name, c ≠ [])
+    (hv1 : exportView true (subRoot recs) cams views r1 = some v1)
+    (hv2 : exportView true (subRoot recs) cams views r2 = some v2) :
+    importName dir v1 = importName dir v2 ↔
+      sameUpToSep (joinSlash (relOf (subRoot recs) r1.name)) (joinSlash (relOf (subRoot recs) r2.name)) := by
+  rw [imported_name true recs cams views r1 v1 dir h1 hne1 hv1,
+    imported_name true recs cams views r2 v2 dir h2 hne2 hv2, ← flattenStr_eq_iff_aux]
+  simp
+
+/-- flattening identifies two strings exactly when they differ only by '/' versus '_' -/
+theorem flatten_eq_iff (a b : Str) : flattenStr a = flattenStr b ↔ sameUpToSep a b := flattenStr_eq_iff_aux a b
+
+/-- in particular flattening is injective on names that contain no underscore -/
+theorem flatten_injective (a b : Str) (ha : '_' ∉ a) (hb : '_' ∉ b) (e : flattenStr a = flattenStr b) : a = b := by
+  rw [← flattenStr_unflatten a ha, ← flattenStr_unflatten b hb, e]
+
+/-- without flattening the order of any two image names is unchanged (so the pairs of `matches` stay in order) -/
+theorem order_preserved (recs : List Rec) (cams views : List (Str × Nat)) (r1 r2 : Rec) (v1 v2 : View) (dir : Str)
+    (h1 : r1 ∈ recs) (h2 : r2 ∈ recs) (hne1 : ∀ c ∈ splitSlash r1.name, c ≠ []) (hne2 : ∀ c ∈ splitSlash r2.name, c ≠ [])
+    (hv1 : exportView false (subRoot recs) cams views r1 = some v1)
+    (hv2 : exportView false (subRoot recs) cams views r2 = some v2) :
+    strLt (importName dir v1) (importName dir v2) = strLt r1.name r2.name := by
+  rw [imported_name false recs cams views r1 v1 dir h1 hne1 hv1,
+    imported_name false recs cams views r2 v2 dir h2 hne2 hv2]
+  obtain ⟨d1, n1⟩ := name_decomposition recs r1 h1
+  obtain ⟨d2, n2⟩ := name_decomposition recs r2 h2
+  have key : ∀ (p x y : Str), strLt (p ++ '/' :: x) (p ++ '/' :: y) = strLt x y := by
+    intro p x y
+    have := strLt_append_left (p ++ ['/']) x y
+    simpa using this
+  simp only [Bool.false_eq_true, if_false]
+  rw [key]
+  by_cases hs : subRoot recs = []
+  · rw [hs] at d1 d2
+    simp only [List.nil_append] at d1 d2
+    rw [hs, d1, d2]
+  · rw [joinSlash_append _ _ hs n1] at d1
+    rw [joinSlash_append _ _ hs n2] at d2
+    conv => rhs; rw [← d1, ← d2]
+    rw [key]
+
+/-! ## views -/
+
+/-- every image of records_camera gets a view (export does not fail on ids) -/
+theorem views_exported (flatten : Bool) (recs : List Rec) :
+    ∃ vs, exportViews flatten (subRoot recs) (camIds recs) (viewIds recs) recs = some vs ∧
+      ∀ r ∈ recs, ∃ v ∈ vs, exportView flatten (subRoot recs) (camIds recs) (viewIds recs) r = some v := by
+  apply exportViews_total
+  intro r hr
+  obtain ⟨⟨i, hi, _⟩, ⟨c, hc, _⟩⟩ := ids_complete recs r hr
+  have : (exportView flatten (subRoot recs) (camIds recs) (viewIds recs) r).isSome = true := by
+    simp [exportView, hi, hc]
+  exact Option.isSome_iff_exists.mp this
+
+/-- looking a view id up after import gives the (renamed) image it was assigned to on export -/
+theorem view_lookup_roundtrip (flatten : Bool) (recs : List Rec) (vs : List View) (dir : Str)
+    (hvs : exportViews flatten (subRoot recs) (camIds recs) (viewIds recs) recs = some vs) (r : Rec) (v : View) (hv : v ∈ vs)
+    (hr : exportView flatten (subRoot recs) (camIds recs) (viewIds recs) r = some v) :
+    Dict.get? r.name (viewIds recs) = some v.idView ∧
+    Dict.get? v.idView (importViews dir vs) = some (importName dir v) := by
+  obtain ⟨c, i, _, hi, hveq⟩ := exportView_eq _ _ _ _ _ _ hr
+  have hid : v.idView = i := by rw [hveq]
+  refine ⟨by rw [hid]; exact hi, ?_⟩
+  unfold importViews
+  have hfold : vs.foldl (fun t v => Dict.set v.idView (importName dir v) t) ([] : List (Nat × Str))
+      = (vs.map (fun v => (v.idView, importName dir v))).foldl (fun t kv => Dict.set kv.1 kv.2 t) [] := by
+    rw [List.foldl_map]
+  rw [hfold]
+  apply get?_foldl_set
+  · intro kv hkv e
+    obtain ⟨w, hw, rfl⟩ := List.mem_map.mp hkv
+    simp only at e ⊢
+    obtain ⟨r', _, hr'⟩ := exportViews_mem _ _ _ _ _ _ hvs w hw
+    obtain ⟨c', i', _, hi', hweq⟩ := exportView_eq _ _ _ _ _ _ hr'
+    have hwid : w.idView = i' := by rw [hweq]
+    have hnames : r'.name = r.name :=
+      (ids_injective recs r'.name r.name i).1 (by rw [← hid, ← e, hwid]; exact hi') hi
+    rw [hweq, hveq, hnames]
+    simp only [importName]
+  · left
+    exact ⟨(v.idView, importName dir v), List.mem_map.mpr ⟨v, hv, rfl⟩, rfl⟩
+
+/-- import looks for the region files under exactly the base name export gave them (with and without flattening) -/
+theorem regions_found (flatten : Bool) (recs : List Rec) (cams views : List (Str × Nat)) (r : Rec) (v : View) (dir : Str)
+    (h : r ∈ recs) (hne : ∀ c ∈ splitSlash r.name, c ≠ [])
+    (hv : exportView flatten (subRoot recs) cams views r = some v) :
+    regionBaseImport (importName dir v) = regionBaseExport flatten (subRoot recs) r.name := by
+  rw [imported_name flatten recs cams views r v dir h hne hv]
+  unfold regionBaseImport regionBaseExport
+  rw [getLastD_splitSlash_append]
+  cases flatten with
+  | true =>
+    simp only [if_true, mvgPath]
+    rw [splitSlash_of_no_slash _ (flattenStr_no_slash _)]
+  | false =>
+    simp only [Bool.false_eq_true, if_false, mvgPath]
+    rw [splitSlash_joinSlash _ (name_decomposition recs r h).2 (rel_comps_no_slash _ _)]
+
+/-! ## structure -/
+
+/-- points come back in the same order with the same coordinates, and every observation comes back on the same point
+  index, the renamed image and the same feature index — for any number of points and observations -/
+theorem structure_roundtrip {α : Type} (views : List (Str × Nat)) (names : List (Nat × Str)) (ρ : Str → Str) (empty : α)
+    (pts : List (α × PointObs)) (hne : pts ≠ []) (h : ∀ p ∈ pts, ObsResolved views names ρ p.2) :
+    ∃ st, exportStructure views pts = some st ∧
+      importStructure names empty st = Except.ok (some (pts.map (·.1)), renamedObs ρ 0 pts) := by
+  obtain ⟨st, h1, h2, h3, h4⟩ := points_loop views names ρ 0 pts h
+  refine ⟨st, h1, ?_⟩
+  have hlen : st.length = pts.length := by
+    have := congrArg List.length h2
+    simpa using this
+  have hpos : 0 < pts.length := List.length_pos_iff.mpr hne
+  have hst : st.isEmpty = false := by
+    cases st with
+    | nil => simp at hlen; omega
+    | cons _ _ => rfl
+  have hk : st.map (·.1) = List.range' 0 ((pts.length - 1) + 1) := by
+    rw [h2]; congr 1; omega
+  simp [importStructure, hst, h4, importPoints_dense empty st _ hk, h3]
+
+/-- the observations that come back are exactly the renamed ones: nothing lost, nothing invented -/
+theorem observations_exact {α : Type} (ρ : Str → Str) (pts : List (α × PointObs)) (x : Nat × Str × Nat) :
+    x ∈ renamedObs ρ 0 pts ↔ ∃ j p, pts[j]? = some p ∧ ∃ o ∈ p.2, x = (j, ρ o.1, o.2) := by
+  simpa using mem_renamedObs ρ 0 pts x
+
+/-- an empty cloud is exported as an empty structure and comes back as "no points" -/
+theorem structure_empty {α : Type} (views : List (Str × Nat)) (names : List (Nat × Str)) (empty : α) :
+    exportStructure views ([] : List (α × PointObs)) = some [] ∧
+    importStructure names empty ([] : List (Nat × α × List (Nat × Nat))) = Except.ok (none, []) := ⟨rfl, rfl⟩
+
+/-! ## matches -/
+
+/-- every pair goes out under its two view ids and comes back under the two renamed images, with the index columns swapped
+  exactly when the renamed names are in the other order — for any number of pairs and rows -/
+theorem matches_roundtrip (views : List (Str × Nat)) (names : List (Nat × Str)) (ρ : Str → Str)
+    (ms : List ((Str × Str) × List (Nat × Nat))) (h : ∀ m ∈ ms, PairResolved views names ρ m) :
+    ∃ bs, exportMatches views ms = some bs ∧ importMatches names bs = Except.ok (ms.map (renamedBlock ρ)) := by
+  induction ms with
+  | nil => exact ⟨[], rfl, rfl⟩
+  | cons m r ih =>
+    obtain ⟨bs, h1, h2⟩ := ih (fun x hx => h x (List.mem_cons_of_mem _ hx))
+    obtain ⟨⟨i, hi1, hi2⟩, ⟨j, hj1, hj2⟩⟩ := h m (by simp)
+    refine ⟨((i, j), m.2) :: bs, by simp [exportMatches, hi1, hj1, h1], ?_⟩
+    by_cases hs : strLt (ρ m.1.2) (ρ m.1.1) = true <;>
+      simp [importMatches, importMatchBlock, hi2, hj2, h2, renamedBlock, hs]
+
+/-- the same index pairs per image pair: feature x of image a is matched with feature y of image b before the loop exactly
+  when feature x of the renamed a is matched with feature y of the renamed b after it (whichever way the block is stored) -/
+theorem match_pairs_preserved (ρ : Str → Str) (m : (Str × Str) × List (Nat × Nat)) (hab : ρ m.1.1 ≠ ρ m.1.2) (x y : Nat) :
+    pairedIn (renamedBlock ρ m) (ρ m.1.1) x (ρ m.1.2) y ↔ (x, y) ∈ m.2 := by
+  unfold pairedIn renamedBlock
+  split
+  · simp [hab, Ne.symm hab]
+  · simp [hab, Ne.symm hab]
+
+/-! ## non-vacuity -/
+
+-- a concrete posed image over ℚ: 120 degree rotation, centre (-3, 1, 2), and the translation comes back
+example : qnorm ((⟨⟨1/2, 1/2, -1/2, 1/2⟩, ⟨1, 2, 3⟩⟩ : Pose ℚ)).r ≠ 0 := by simp only [qnorm]; norm_num
+example : exportCentre (⟨⟨1/2, 1/2, -1/2, 1/2⟩, ⟨1, 2, 3⟩⟩ : Pose ℚ) = ⟨-3, 1, 2⟩ := by decide +kernel
+-- a representable camera exists for every constructor, e.g. a FULL_OPENCV one with k3 ≠ 0
+example : Representable (⟨CamType.FULL_OPENCV, 640, 480, [500, 500, 320, 240, 1, 2, 3, 4, 5, 0, 0, 0]⟩ : Cam ℚ) :=
+  Representable.fullOpencv 640 480 500 320 240 1 2 3 4 5
+-- two images under a common directory, flattened: ids, sub root, names
+example : subRoot [⟨10, "c".toList, "a/s/x.jpg".toList⟩, ⟨11, "c".toList, "a/y.jpg".toList⟩] = ["a".toList] := by decide
+example : (exportView true ["a".toList] [("c".toList, 0)] [("a/s/x.jpg".toList, 0)] ⟨10, "c".toList, "a/s/x.jpg".toList⟩).map
+    (importName "a".toList) = some "a/s_x.jpg".toList := by decide
+-- the hypotheses of structure_roundtrip / matches_roundtrip are met by the tables of that export
+example : ObsResolved [("a/s/x.jpg".toList, 0)] [(0, "a/s_x.jpg".toList)] (fun _ => "a/s_x.jpg".toList) [("a/s/x.jpg".toList, 7)] := by
+  intro o ho
+  simp only [List.mem_singleton] at ho
+  subst ho
+  exact ⟨0, by decide, by decide, by decide⟩
+-- a flip: "a/z" < "aB" but "a_z" > "aB", so the columns of that pair are swapped
+example : strLt "a/z".toList "aB".toList = true ∧ strLt (flattenStr "aB".toList) (flattenStr "a/z".toList) = true := by decide
+
 end Kapture.C14
